@@ -795,3 +795,199 @@ pub fn tool_space() -> serde_json::Value {
         "average_tool": "2 bigWigs x 3 region lists (1, 3, 68 regions) x name modes x --min-max x final newline x -t 1..16 (byte-identical), plus bigwigvaluesoverbed",
     })
 }
+
+// =============================================================================================
+// C19 tool part: bedtobigbed derives the schema from the first BED line / stores --autosql verbatim
+
+pub fn c19_tool(extra: usize, supplied: Option<(String, usize)>, threads: usize, out: &mut Outcome) {
+    let wd = workdir();
+    let dir = wd.path();
+    let rest: Vec<String> = (0..extra).map(|i| format!("v{}", i)).collect();
+    let mut bed = String::new();
+    for (i, (c, a, b)) in [("chr1", 1u32, 9u32), ("chr1", 5, 20), ("chr2", 0, 4)].iter().enumerate() {
+        bed.push_str(&format!("{}\t{}\t{}", c, a, b));
+        for r in &rest {
+            bed.push_str(&format!("\t{}{}", r, i));
+        }
+        bed.push('\n');
+    }
+    std::fs::write(dir.join("in.bed"), &bed).unwrap();
+    std::fs::write(dir.join("sizes"), "chr1\t100\nchr2\t50\n").unwrap();
+    let mut argv = vec![s("bedtobigbed"), s("in.bed"), s("sizes"), s("out.bb"), s("-t"), threads.to_string()];
+    let tags = vec![if supplied.is_some() { s("supplied_schema") } else { s("generated_schema") }];
+    if let Some((text, _)) = &supplied {
+        std::fs::write(dir.join("schema.as"), text).unwrap();
+        argv.extend([s("--autosql"), s("schema.as")]);
+    }
+    let r = run_in(dir, &argv);
+    out.count("tool_schema_runs", 1);
+    if r.stderr.starts_with("HARNESS") {
+        out.fail("harness_panic", &[], r.stderr);
+        return;
+    }
+    if r.timed_out || r.code != Some(0) {
+        out.fail("schema_tool_failed", &tags, format!("{:?} ({} extra columns): exit {:?} stderr {}", argv, extra, r.code, r.stderr.chars().take(300).collect::<String>()));
+        return;
+    }
+    let bytes = std::fs::read(dir.join("out.bb")).unwrap_or_default();
+    match indep::decode(&bytes) {
+        Err(e) => out.fail("schema_tool_output_undecodable", &tags, e),
+        Ok(d) => {
+            let asql = d.autosql.clone().unwrap_or_default();
+            match &supplied {
+                Some((text, n)) => {
+                    if asql != *text {
+                        out.fail("autosql_not_verbatim", &tags, format!("stored {:?}, supplied {:?}", asql, text));
+                    }
+                    if d.field_count as usize != *n {
+                        out.fail("field_count_mismatch", &tags, format!("header fieldCount {} but the supplied schema declares {}", d.field_count, n));
+                    }
+                }
+                None => {
+                    let declared = crate::wfam::declared_fields(&asql).unwrap_or(0);
+                    if declared != 3 + extra {
+                        out.fail("generated_schema_field_count", &tags, format!("{} extra columns: the stored schema declares {} fields", extra, declared));
+                    }
+                    if d.field_count as usize != 3 + extra {
+                        out.fail("field_count_mismatch", &tags, format!("{} extra columns: header fieldCount {}", extra, d.field_count));
+                    }
+                }
+            }
+            let n: usize = d.bed_blocks.iter().map(|b| b.len()).sum();
+            if n != 3 {
+                out.fail("schema_tool_records", &tags, format!("{} entries decoded, 3 written", n));
+            }
+        }
+    }
+}
+
+// =============================================================================================
+// C13 tool part: exit status of the converters on unrepresentable input
+
+#[derive(Clone, Debug, Serialize, Deserialize)]
+pub struct RefuseTool {
+    pub bed: bool,
+    pub what: String,
+    pub threads: usize,
+    pub parallel: String,
+    pub single_pass: bool,
+}
+
+pub fn refuse_tool_cases(quick: bool) -> Vec<RefuseTool> {
+    let mut v = vec![];
+    let whats = ["starts_out_of_order", "overlap", "start_after_end", "beyond_chrom", "unknown_chrom", "chrom_order", "chrom_repeated", "missing_end", "non_numeric_start", "bad_value", "space_separated", "empty_input", "valid"];
+    for bed in [false, true] {
+        for what in whats {
+            if bed && (what == "overlap" || what == "bad_value") {
+                continue;
+            }
+            for (threads, parallel) in [(1usize, "no"), (4, "no"), (4, "yes"), (4, "auto")] {
+                for single_pass in [false, true] {
+                    if quick && single_pass && parallel == "auto" {
+                        continue;
+                    }
+                    v.push(RefuseTool { bed, what: s(what), threads, parallel: s(parallel), single_pass });
+                }
+            }
+        }
+    }
+    v
+}
+
+pub fn c13_tool(t: &RefuseTool, out: &mut Outcome) {
+    let wd = workdir();
+    let dir = wd.path();
+    let mut rows: Vec<(String, i64, i64)> = vec![];
+    for c in ["chrA", "chrB", "chrC"] {
+        for (a, b) in [(10, 20), (30, 40), (50, 60)] {
+            rows.push((s(c), a, b));
+        }
+    }
+    let mut raw: Option<(usize, String)> = None;
+    match t.what.as_str() {
+        "starts_out_of_order" => rows.swap(4, 5),
+        "overlap" => rows[3].2 = 31,
+        "start_after_end" => rows[7].1 = 70,
+        "beyond_chrom" => {
+            rows[8].1 = if t.bed { 100 } else { 50 };
+            rows[8].2 = 105;
+        }
+        "unknown_chrom" => {
+            for r in rows.iter_mut().filter(|r| r.0 == "chrB") {
+                r.0 = s("chrB_unlisted");
+            }
+        }
+        "chrom_order" => {
+            for r in rows.iter_mut() {
+                if r.0 == "chrB" {
+                    r.0 = s("chrC");
+                } else if r.0 == "chrC" {
+                    r.0 = s("chrB");
+                }
+            }
+        }
+        "chrom_repeated" => {
+            let r = rows.remove(2);
+            rows.insert(5, r);
+        }
+        "missing_end" => raw = Some((4, s("chrB\t30"))),
+        "non_numeric_start" => raw = Some((4, s("chrB\tx30\t40\t1"))),
+        "bad_value" => raw = Some((4, s("chrB\t30\t40\tabc"))),
+        "space_separated" => raw = Some((4, s("chrB 30 40 1"))),
+        "empty_input" => rows.clear(),
+        _ => {}
+    }
+    let mut text = String::new();
+    for (i, (c, a, b)) in rows.iter().enumerate() {
+        match &raw {
+            Some((k, l)) if *k == i => text.push_str(l),
+            _ => {
+                if t.bed {
+                    text.push_str(&format!("{}\t{}\t{}\tn{}", c, a, b, i));
+                } else {
+                    text.push_str(&format!("{}\t{}\t{}\t{}", c, a, b, i as f32 + 0.5));
+                }
+            }
+        }
+        text.push('\n');
+    }
+    std::fs::write(dir.join("in.txt"), &text).unwrap();
+    std::fs::write(dir.join("sizes"), "chrA\t100\nchrB\t100\nchrC\t100\n").unwrap();
+    let mut argv = vec![if t.bed { s("bedtobigbed") } else { s("bedgraphtobigwig") }, s("in.txt"), s("sizes"), s("out.bb"), s("-t"), t.threads.to_string(), s("-p"), t.parallel.clone()];
+    if t.single_pass {
+        argv.push(s("--single-pass"));
+    }
+    let r = run_in(dir, &argv);
+    out.count("tool_refusal_runs", 1);
+    let tags = vec![format!("tool_{}", t.what), format!("parallel_{}", t.parallel), if t.bed { s("bigbed") } else { s("bigwig") }];
+    if r.stderr.starts_with("HARNESS") {
+        out.fail("harness_panic", &[], r.stderr);
+        return;
+    }
+    if r.timed_out {
+        out.fail("tool_hangs", &tags, format!("{:?} did not finish within 60 s", argv));
+        return;
+    }
+    // a panic of the main thread ends the process with status 101 (or a signal); a background
+    // task that panics after the call has already failed (its channel peer is gone) is not the
+    // call panicking
+    let panicked = r.code == Some(101) || r.code.is_none();
+    if r.stderr.contains("panicked at") && !panicked {
+        out.count("tool_background_task_panic_after_error", 1);
+    }
+    if t.what == "valid" {
+        if r.code != Some(0) || panicked {
+            out.fail("tool_fails_on_valid_input", &tags, format!("{:?}: exit {:?} stderr {}", argv, r.code, r.stderr.chars().take(300).collect::<String>()));
+        } else {
+            out.count("tool_valid_ok", 1);
+        }
+        return;
+    }
+    if panicked {
+        out.fail("tool_panics_on_invalid_input", &tags, format!("{:?}: exit {:?} stderr {}", argv, r.code, r.stderr.chars().take(300).collect::<String>()));
+    } else if r.code == Some(0) {
+        out.fail("tool_exit_0_on_invalid_input", &tags, format!("{:?}: exit 0 for unrepresentable input ({}); stderr {}", argv, t.what, r.stderr.chars().take(200).collect::<String>()));
+    } else {
+        out.count("tool_invalid_refused", 1);
+    }
+}
